@@ -199,11 +199,11 @@ class DocumentMapper:
                             run_parts.append(("real", part, item))
                             if suffix:
                                 run_parts.append(("virtual", suffix, None))
-                else:
+                elif text:
+                    # A run without text contributes nothing (the reader skips it as well)
                     if prefix:
                         run_parts.append(("virtual", prefix, None))
-                    if text:
-                        run_parts.append(("real", text, item))
+                    run_parts.append(("real", text, item))
                     if suffix:
                         run_parts.append(("virtual", suffix, None))
 
@@ -257,8 +257,8 @@ class DocumentMapper:
                         for kind, txt, r_obj in run_parts:
                             pending_runs.append((kind, txt, r_obj, curr_ins_id, curr_del_id))
 
-                # Metadata Handling
-                if not self.clean_view:
+                # Metadata Handling (only for runs that contributed text, as in the reader)
+                if not self.clean_view and full_seg_text:
                     state_snapshot = (
                         ({active_ins_event.id: active_ins_event} if active_ins_event else {}),
                         ({active_del_event.id: active_del_event} if active_del_event else {}),
